@@ -13,10 +13,12 @@ From ZI Require Export Lib.Util Model.Adapt Spec.Pep246.
    (conform-call observable, hook calls observable, provided-check observable,
     read of __conform__ observable, driver-side argument/identity checks ok),
    observed I(obj[, alt]) = (log, outcome)   [an unrecognised result is sent as RaiseE InterpTE0],
-   observed I.__adapt__(obj) = (log, result) [None if not observed; unrecognised = Raise InterpTE0] *)
+   observed I.__adapt__(obj) = (log, result) [None if not observed; unrecognised = Raise InterpTE0],
+   a nested adaptation J(other, None) started from inside a hook of this call, J a plain interface:
+   the behaviour of [other] / of the hooks at depth 1 and the observed (log, outcome) [None if none ran] *)
 Definition case_t :=
   (bool * list lvl * obj * (bool * bool * bool * bool * bool) * (list ev * outcome)
-   * option (list ev * res (option value)))%type.
+   * option (list ev * res (option value)) * option (obj * (list ev * outcome)))%type.
 
 (* steps whose execution the driver could not instrument (the body of an unbound __conform__
    never runs; a real registry hook is a C method and computes providedBy(obj) itself; an object
@@ -31,17 +33,23 @@ Definition visible (vc vh vp vg : bool) (e : ev) : bool :=
 Definition log_eqb := list_eqb ev_eqb.
 
 Definition model_out (c : case_t) : (list ev * outcome) * (list ev * res (option value)) :=
-  let '(uc, chain, o, _, _, _) := c in
+  let '(uc, chain, o, _, _, _, _) := c in
   let k := type_of_chain true chain in
   if uc then (c_call k o, c_adapt k o) else (py_call k o, py_adapt k o).
 
 Definition check_model (c : case_t) : bool :=
-  let '(uc, chain, o, (vc, vh, vp, vg, _), (olog, oout), oadapt) := c in
+  let '(uc, chain, o, (vc, vh, vp, vg, _), (olog, oout), oadapt, onested) := c in
   let '((mlog, mout), (alog, ares)) := model_out c in
   log_eqb (filter (visible vc vh vp vg) mlog) olog && outcome_eqb mout oout
   && match oadapt with
      | None => true
      | Some (l, r) => log_eqb (filter (visible vc vh vp vg) alog) l && ares_eqb ares r
+     end
+  && match onested with
+     | None => true
+     | Some (o', (l, r)) =>
+         let (nl, nr) := (if uc then c_call else py_call) (type_of_chain true []) o' in
+         log_eqb nl l && outcome_eqb nr r
      end.
 
 (* what I.__adapt__(obj) must return for a spec verdict *)
@@ -55,7 +63,7 @@ Definition sres_matches (s : sres) (a : res (option value)) : bool :=
   end.
 
 Definition check_spec (c : case_t) : bool :=
-  let '(_, chain, o, (vc, vh, vp, vg, ok), (olog, oout), oadapt) := c in
+  let '(_, chain, o, (vc, vh, vp, vg, ok), (olog, oout), oadapt, onested) := c in
   let (slog, sout) := spec chain o in
   ok
   && log_eqb (filter (visible vc vh vp vg) slog) olog && outcome_eqb sout oout
@@ -64,4 +72,9 @@ Definition check_spec (c : case_t) : bool :=
      | Some (l, r) =>
          let (alog, ares) := spec_adapt chain o in
          log_eqb (filter (visible vc vh vp vg) alog) l && sres_matches ares r
+     end
+  (* the nested call is an adaptation like any other: same precedence, its own arguments *)
+  && match onested with
+     | None => true
+     | Some (o', (l, r)) => let (nl, nr) := spec [] o' in log_eqb nl l && outcome_eqb nr r
      end.
